@@ -85,6 +85,16 @@ BIJ_VEC_REF = (
     "    return jnp.vectorize(func, signature=_get_ufunc_signature(in_shapes, out_shapes), excluded=exclude)\n")
 
 
+def rule_public_lift(prog, rep, R):
+    """Each public distribution method reaches its private core only through self._vectorize(core) - the function
+    that carries the per-element shape check - with (x | keys, condition) in this order."""
+    c = prog.cls(DIST)
+    for m, (args, src) in PUBLIC.items():
+        got = Interp(prog, no_inline=NOIN).eval_method(c, m, args)
+        want = eval_ref_method(prog, c, src, args, no_inline=NOIN)
+        compare(rep, R, method_site(prog, c, m), f"AbstractDistribution.{m}", got, want, m)
+
+
 def run(prog: Program, rep: Report, tier: str):
     c = prog.cls(DIST)
     rep.rule("C06.lift", "each public method is the jnp.vectorize lift of its private core (argument order "
@@ -92,10 +102,7 @@ def run(prog: Program, rep: Report, tier: str):
                          "shape (input of _log_prob, output of the samplers), (2,) for keys, () for log-probs, with "
                          "cond_shape appended / argument 1 excluded iff cond_shape is None; the per-element shape "
                          "check is the function handed to vectorize; the bijection vectoriser agrees and its four methods lift the method of the same name (log_det=True exactly for the *_and_log_det pair)", minimum=12)
-    for m, (args, src) in PUBLIC.items():
-        got = Interp(prog, no_inline=NOIN).eval_method(c, m, args)
-        want = eval_ref_method(prog, c, src, args, no_inline=NOIN)
-        compare(rep, "C06.lift", method_site(prog, c, m), f"AbstractDistribution.{m}", got, want, m)
+    rule_public_lift(prog, rep, "C06.lift")
     for core in ("_log_prob", "_sample", "_sample_and_log_prob"):
         meth = ("attr", SELF, core)
         got = Interp(prog, no_inline={"flowjax.utils._get_ufunc_signature"}).eval_method(c, "_vectorize", [meth])
